@@ -18,6 +18,7 @@ pub fn families() -> Vec<&'static dyn Family> {
         &rsim::reqrep::RR_SHUTDOWN,
         &rsim::reqrep::RR_FAIL_RANDOM,
         &rsim::reqrep::RR_FRAMES,
+        &rsim::reqrep::RR_FRAMES_REBIND,
         &rsim::enumfail::PS_FAIL_ENUM,
         &rsim::enumfail::RR_FAIL_ENUM,
         &wsim::clean::WIRE_CLEAN,
@@ -164,7 +165,7 @@ pub fn plan(property: &str) -> Option<CheckPlan> {
             assumptions: vec!["R part: frames reach the router already decoded (the codec is exercised by C05/C06 and by the N part)"],
             real: R_REAL.to_vec(),
             stubbed: R_STUB.to_vec(),
-            items: vec![PlanItem { family: &rsim::reqrep::RR_FRAMES, quick: 100_000, thorough: 3_000_000 }, PlanItem { family: &nsim::frames::HOSTILE_FRAMES, quick: 300, thorough: 15_000 }],
+            items: vec![PlanItem { family: &rsim::reqrep::RR_FRAMES, quick: 100_000, thorough: 3_000_000 }, PlanItem { family: &rsim::reqrep::RR_REPLIERS, quick: 60_000, thorough: 1_500_000 }, PlanItem { family: &rsim::reqrep::RR_FRAMES_REBIND, quick: 40_000, thorough: 1_000_000 }, PlanItem { family: &nsim::frames::HOSTILE_FRAMES, quick: 300, thorough: 15_000 }],
         }),
         "C05" => Some(CheckPlan {
             property: "C05",
